@@ -345,7 +345,15 @@ class Args(DataclassHideDefault):
         """
         Returns the number of args
         """
-        return len(self.parameters)
+        # Counted by slot, not through the mapping of `parameters`, which holds
+        # a name once even if several args of hand written code share it
+        return (
+            len(self.positional_only)
+            + len(self.positional_or_keyword)
+            + (self.var_positional is not None)
+            + len(self.keyword_only)
+            + (self.var_keyword is not None)
+        )
 
 
 @dataclass(frozen=True)
